@@ -244,7 +244,12 @@ def plan(tier, seed):
         fam = [c for c in allc if HDRS[c[4]] == 'both' and
                SIDK[c[3]] in ('live', 'upgraded', 'mid') and
                sum(1 for a, b in zip(c[:7], DEFAULT[:7]) if a != b) <= 3]
-        chosen = list(dict.fromkeys(near + fam)) + rng.sample(allc, 2000)
+        # ... and so is the family of requests that name no session
+        fam2 = [c for c in allc if SIDK[c[3]] == 'absent' and
+                HDRS[c[4]] == 'none' and CONF[c[6]] is None and
+                sum(1 for a, b in zip(c[:7], DEFAULT[:7]) if a != b) <= 4]
+        chosen = list(dict.fromkeys(near + fam + fam2)) + \
+            rng.sample(allc, 2000)
     rng.shuffle(chosen)
     n = 16
     return [{'cells': chosen[i::n], 'all': tier == 'thorough'}
